@@ -92,16 +92,16 @@ def main():
         "setup_cmd": "bin/setup",
         "hooks": {
             "guard": "RWEATHER_TINYJAMBU_VERIF",
-            "enable": "checks compile /repo's working tree themselves with -DRWEATHER_TINYJAMBU_VERIF; no source hook exists, every monitor observes the API, process or machine-code boundary",
+            "enable": "checks compile /repo's working tree themselves with -DRWEATHER_TINYJAMBU_VERIF (all direct compiler builds; the cmake production build is left without it); one hook exists: tinyjambu_prng_verif_get_counter / _set_counter in src/tinyjambu-prng.c, used by C16 to reach block-counter values that need ~2^32 API calls",
             "baseline_off_cmd": "rm -rf /tmp/tjv-baseline && cmake -S /repo -B /tmp/tjv-baseline -G Ninja >/dev/null && cmake --build /tmp/tjv-baseline >/dev/null && ctest --test-dir /tmp/tjv-baseline -j8 --timeout 900; rc=$?; rm -rf /tmp/tjv-baseline; exit $rc",
-            "source_commits": [],
+            "source_commits": ["86c607b"],
             "add_only": True,
         },
         "engines": [{"name": "runtime-monitor", "path": "bin/check", "serves_properties": sorted(props.CHECKS),
                      "kind_free_text": "Python driver + C harnesses: builds /repo's working tree in many configurations (production cmake build, compiler matrix, ASan/UBSan, MSan, TSan), runs hostile workloads under guard pages / sanitizers / valgrind / fault injection, judges with a reference model and trace monitors"}],
         "checks": checks,
         "not_applicable": na,
-        "notes": "All checks: exit 0 held / 1 VIOLATION / 2 inconclusive. VERIF_SEED selects random choices; enumerated parts do not depend on it. known_findings.json lists genuine defects (one, fixed by /repo commit 972a5de).",
+        "notes": "All checks: exit 0 held / 1 VIOLATION / 2 inconclusive. VERIF_SEED selects random choices; enumerated parts do not depend on it. known_findings.json lists genuine defects: two, both repaired by fix: commits in /repo (972a5de for C17, b86dcde for C16); no open known finding.",
     }
     with open(os.path.join(V, "MANIFEST.json"), "w") as f:
         json.dump(m, f, indent=1)
